@@ -56,7 +56,9 @@ class C09(Prop):
             yield Case('reduce', ('aggregate_simple', False, None, t, None, zoo.fn(rng.choice([0, 1, 2, 6])), val, 'value'))
             aggs = []
             forms = [lambda: zoo.fn(0), lambda: val, lambda: (val,), lambda: (zoo.fn(6),), lambda: (val, zoo.fn(2)),
-                     lambda: (val, zoo.fn(3)), lambda: ((hdr[0], val), zoo.fn(1)), lambda: (val, zoo.fn(7))]
+                     lambda: (val, zoo.fn(3)), lambda: ((hdr[0], val), zoo.fn(1)), lambda: (val, zoo.fn(7)),
+                     # other single source fields than `val`, so that one spec names several different ones
+                     lambda: (hdr[0], zoo.fn(1)), lambda: (hdr[-1], zoo.fn(1)), lambda: (hdr[-1], zoo.fn(6)), lambda: (hdr[0], zoo.fn(7))]
             for i in range(rng.choice([0, 1, 2, 3])):
                 aggs.append(('o%d' % i, rng.choice(forms)()))
             yield Case('reduce', ('aggregate_multi', False, bs, t, rng.choice([key, key, None]), tuple(aggs)),
@@ -98,6 +100,8 @@ class C09(Prop):
             yield Case('vcm', (rng.choice([hdr[1], hdr[-1]]), rng.choice(['M', 'NA', None]), rag))
             yield Case('reduce', ('fold', False, bs, t, key, zoo.fn(rng.choice([0, 1])), rng.choice([val, val, None])))
             yield Case('reduce', ('valuecounts', False, None, t, rng.choice([(hdr[0],), (hdr[0], hdr[1])]), None))
+            # several fields in another order than the header's, on ragged rows
+            yield Case('vc_multi', (tuple(reversed(hdr[:rng.choice([2, w])])), rng.choice(['M', None]), rag))
 
     def impl(self, case):
         import petl as etl
@@ -109,6 +113,8 @@ class C09(Prop):
                     return codec.t_bool(self._rgm(*case.arg[1:]))
                 if case.arg and case.arg[0] == 'merge':
                     return codec.t_bool(self._merge(*case.arg[1:]))
+                if case.arg and case.arg[0] == 'vc_multi':
+                    return codec.t_bool(self._vc_multi(*case.arg[1:]))
                 if case.arg and case.arg[0] == 'counts':
                     return codec.t_bool(self._counts(*case.arg[1:]))
                 return codec.t_bool(self._gcdv(*case.arg))
@@ -160,7 +166,7 @@ class C09(Prop):
             return Case('const_true', case.arg, dict(case.meta, orig='gcdv'))
         if case.op == 'vcm':
             return Case('const_true', ('vcm',) + tuple(case.arg), dict(case.meta, orig='vcm'))
-        if case.op in ('rgm', 'merge', 'counts'):
+        if case.op in ('rgm', 'merge', 'counts', 'vc_multi'):
             return Case('const_true', (case.op,) + tuple(case.arg), dict(case.meta, orig=case.op))
         return case
 
@@ -226,6 +232,23 @@ class C09(Prop):
         norm = lambda rs: [tuple(('!conflict',) + tuple(sorted(x[1:], key=repr)) if isinstance(x, tuple) and x[:1] == ('!conflict',)   # noqa
                                  else x for x in r) for r in rs]
         return norm(got) == norm(want)
+
+    def _vc_multi(self, fields, missing, t):
+        """valuecounts / valuecounter over several fields: every row counts under the tuple of ITS OWN cells for those fields, in
+        the order asked for, `missing` standing in for cells a short row does not have"""
+        import petl as etl
+        hdr = list(t[0])
+        idx = [hdr.index(f) for f in fields]
+        want = {}
+        for r in t[1:]:
+            k = tuple(r[i] if i < len(r) else missing for i in idx)
+            want[k] = want.get(k, 0) + 1
+        got = dict(etl.valuecounter([list(r) for r in t], *fields, missing=missing))
+        rows = [tuple(r) for r in etl.valuecounts([list(r) for r in t], *fields, missing=missing)]
+        got2 = {tuple(r[:len(fields)]): r[len(fields)] for r in rows[1:]}
+        vals = [tuple(v) for v in etl.values([list(r) for r in t], *fields, missing=missing)]
+        return (got == want and got2 == want and sum(want.values()) == len(t) - 1
+                and vals == [tuple(r[i] if i < len(r) else missing for i in idx) for r in t[1:]])
 
     def _counts(self, key, bs, t):
         """group sizes add up to the number of rows, for every grouping operator, also when some rows are empty"""
@@ -301,6 +324,10 @@ class C09(Prop):
                     _, key, missing, tabs = case.arg
                     return missing is None and len(tabs) >= 1 and all(len(t) >= 1 and key in t[0] and t[0][0] == key and len(set(t[0])) == len(t[0])
                                and all(1 <= len(r) <= len(t[0]) for r in t[1:]) for t in tabs)
+                if case.arg[0] == 'vc_multi':
+                    _, fields, missing, t = case.arg
+                    return (len(t) >= 1 and len(fields) >= 2 and len(set(fields)) == len(fields) and all(f in t[0] for f in fields)
+                            and len(set(t[0])) == len(t[0]))
                 if case.arg[0] == 'counts':
                     _, key, bs, t = case.arg
                     return len(t) >= 1 and key in t[0] and all(len(r) in (0, len(t[0])) for r in t[1:])
@@ -364,7 +391,7 @@ class C09(Prop):
         return None
 
     def nontrivial(self, case):
-        if case.op in ('const_true', 'gcdv', 'rgm', 'vcm', 'merge', 'counts'):
+        if case.op in ('const_true', 'gcdv', 'rgm', 'vcm', 'merge', 'counts', 'vc_multi'):
             return len(case.arg[-1]) >= 3
         return len(case.arg[3]) >= 3
 
